@@ -8,14 +8,22 @@ Open Scope N_scope.
 Definition live2 (st : state2) : list N := mesh_darts st.
 Definition face_of (st : state2) (f : N) : list N := match face_cycle st f with Some c => c | None => [] end.
 (** non-degenerate closed faces: at least three sides, consecutive corners distinct, no corner where the
-    boundary turns straight back *)
+    boundary turns straight back -- all three AFTER the viewer's conversion of the coordinates to f32: two
+    corners closer than 2^-20 of their magnitude, or a reversal within the direction error that such a rounding
+    can cause, are outside the premise (a bisector does not exist there) *)
+Definition dy_le (a c : dy) : bool := negb (dy_sgn (dy_sub c a) <? 0)%Z.
+Definition sq (a : dy) : dy := dy_mul a a.
+Definition norm2 (p : pt) : dy := dy_add (sq (fst p)) (sq (snd p)).
+Definition dist2 (p q : pt) : dy := dy_add (sq (dy_sub (fst q) (fst p))) (sq (dy_sub (snd q) (snd p))).
 Definition corner_ok (st : state2) (d : N) : bool :=
   match pt_at st (b st 0 d), pt_at st d, pt_at st (b st 1 d) with
   | Some p, Some q, Some r =>
-    negb (pt_eqb p q) && negb (pt_eqb q r) &&
-    negb (Z.eqb (dy_sgn (dy_cross p q r)) 0 &&
-          (dy_sgn (dy_add (dy_mul (dy_sub (fst q) (fst p)) (dy_sub (fst r) (fst q)))
-                          (dy_mul (dy_sub (snd q) (snd p)) (dy_sub (snd r) (snd q)))) <? 0)%Z)
+    let m2 := dy_add (norm2 p) (dy_add (norm2 q) (norm2 r)) in
+    let a2 := dist2 p q in let b2 := dist2 q r in
+    let dot := dy_add (dy_mul (dy_sub (fst q) (fst p)) (dy_sub (fst r) (fst q)))
+                      (dy_mul (dy_sub (snd q) (snd p)) (dy_sub (snd r) (snd q))) in
+    negb (dy_le a2 (dy_mul (1, -40)%Z m2)) && negb (dy_le b2 (dy_mul (1, -40)%Z m2)) &&
+    negb ((dy_sgn dot <? 0)%Z && dy_le (sq (dy_cross p q r)) (dy_mul (1, -36)%Z (dy_mul m2 (dy_add a2 b2))))
   | _, _, _ => false
   end.
 Definition premise2 (st : state2) : bool :=
